@@ -15,6 +15,9 @@ def gen_files(ctx, label, n):
         text = instgen.render(ast, rng if messy else None, trailer=rng.random() < 0.5,
                               final_newline=rng.random() < 0.8)
         yield dict(text=text, na=ast['na'], twopl=twopl, ast=ast, messy=messy)
+        if k % 3 == 0:
+            # the same unchanged file read again under the other -twopl setting
+            yield dict(text=text, na=ast['na'], twopl=not twopl, ast=ast, messy=messy)
 
 
 MALFORMED = [
